@@ -5,6 +5,8 @@ from __future__ import annotations
 import ast
 
 from vlib.core import AnalysisError, Report
+from vlib.flow import parent_map
+from vlib.match import FI, calls, closure, closure_fi, concat_parts, facts_through, has_call, nodes
 from vlib.py2cpp_model import PY2CPP
 from vlib.schema import dict_keys, returned_dicts, subscripted_keys, typeddict_keys
 from vlib.srcindex import SourceIndex, attr_chain, const_str, unparse, walk_no_nested
@@ -41,31 +43,42 @@ def run(rep: Report, tier: str) -> None:
 
 	# ---- (a) field wiring ----------------------------------------------------------------------------------------
 	ra = rep.rule('C06/header-field-wiring', 'to_json keys == from_json keys; raw[k] -> ctor parameter -> attribute -> to_json value for k\' gives k == k\'; every attribute set in __init__ is serialised', floor=6)
-	dicts = [n for n in ast.walk(to_json.node) if isinstance(n, ast.Dict)]
+	tj = FI(to_json)
+	dicts = [a for c in calls(tj, 'dumps') for a in c.args[:1] if isinstance(a, ast.Dict)]
 	if len(dicts) != 1:
-		raise AnalysisError('MetaHeader.to_json no longer builds exactly one dict literal')
+		raise AnalysisError('MetaHeader.to_json no longer json.dumps exactly one dict literal')
 	wkeys = dict_keys(dicts[0])
 	wvals = {const_str(k): v for k, v in zip(dicts[0].keys, dicts[0].values)}
-	rkeys = subscripted_keys(from_json.node, 'raw')
+	fj = FI(from_json)
+	ctor = next((n for n in nodes(fj, ast.Call) if isinstance(n.func, ast.Name) and n.func.id in ('cls', 'MetaHeader')), None)
+
+	def loaded_key(e: ast.AST) -> str | None:
+		"""e is <json.loads(...)>[<const>]"""
+		if isinstance(e, ast.Subscript) and has_call(e.value, 'loads'):
+			return const_str(e.slice)
+		if isinstance(e, ast.Call) and isinstance(e.func, ast.Attribute) and e.func.attr == 'get' and has_call(e.func.value, 'loads') and e.args:
+			return const_str(e.args[0])
+		return None
+
+	rkeys = {loaded_key(n) for n in nodes(fj) if loaded_key(n)}
 	ra.check(set(wkeys) == rkeys, 'keys', to_json.where, f'to_json writes {sorted(k for k in wkeys if k)} but from_json reads {sorted(rkeys)}')
-	# ctor call in from_json: cls(raw[k0], raw[k1], raw[k2]) -> params
-	ctor = next((n for n in ast.walk(from_json.node) if isinstance(n, ast.Call) and isinstance(n.func, ast.Name) and n.func.id == 'cls'), None)
 	params = init.params()[1:]
 	# param -> attribute
 	p2attr: dict[str, str] = {}
 	attrs_set: set[str] = set()
 	for n in walk_no_nested(init.node):
-		if isinstance(n, ast.Assign) and isinstance(n.targets[0], ast.Attribute) and isinstance(n.targets[0].value, ast.Name) and n.targets[0].value.id == 'self':
-			attrs_set.add(n.targets[0].attr)
+		tgt = n.targets[0] if isinstance(n, ast.Assign) else n.target if isinstance(n, ast.AnnAssign) and n.value is not None else None
+		if isinstance(tgt, ast.Attribute) and isinstance(tgt.value, ast.Name) and tgt.value.id == 'self':
+			attrs_set.add(tgt.attr)
 			for x in ast.walk(n.value):
 				if isinstance(x, ast.Name) and x.id in params:
-					p2attr[x.id] = n.targets[0].attr
+					p2attr[x.id] = tgt.attr
 	attr2key = {}
 	for k, v in wvals.items():
 		if isinstance(v, ast.Attribute) and isinstance(v.value, ast.Name) and v.value.id == 'self':
 			attr2key[v.attr] = k
 	if ctor is None:
-		ra.undecided('from_json:ctor', from_json.where, 'from_json no longer calls cls(...)')
+		ra.skip('from_json:ctor', from_json.where, 'from_json no longer calls cls(...)')
 	else:
 		bound = {}
 		for i, a in enumerate(ctor.args):
@@ -74,10 +87,12 @@ def run(rep: Report, tier: str) -> None:
 		for kw in ctor.keywords:
 			bound[kw.arg] = kw.value
 		for pname, arg in bound.items():
-			ks = subscripted_keys(arg, 'raw')
-			k = next(iter(ks)) if len(ks) == 1 else None
+			k = loaded_key(arg)
 			back = attr2key.get(p2attr.get(pname, ''))
-			ra.check(k is not None and k == back, f'field:{pname}', (HEADER, ctor.lineno), f'raw[{k!r}] is passed as `{pname}`, stored in self.{p2attr.get(pname)}, and written back under key {back!r}: the header would not read back to the same value')
+			if k is None:
+				ra.skip(f'field:{pname}', (HEADER, ctor.lineno), f'constructor argument `{unparse(arg)}` is not a key of the loaded JSON object')
+			else:
+				ra.check(k == back, f'field:{pname}', (HEADER, ctor.lineno), f'raw[{k!r}] is passed as `{pname}`, stored in self.{p2attr.get(pname)}, and written back under key {back!r}: the header would not read back to the same value')
 	for a in sorted(attrs_set):
 		ra.check(a in attr2key, f'serialised:{a}', init.where, f'self.{a} is set in __init__ but not written by to_json: identity/__eq__ hash to_json() and would ignore it (a change of {a} would not trigger regeneration)')
 	ident = mh.method('identity')
@@ -85,15 +100,15 @@ def run(rep: Report, tier: str) -> None:
 	# __eq__ decides regeneration: it must cover every field, either through identity (hash of to_json(), which serialises every field) or field by field
 	covered: set[str] = set()
 	if eq is not None:
-		for n in ast.walk(eq.node):
-			if isinstance(n, ast.Compare) and len(n.ops) == 1 and isinstance(n.ops[0], (ast.Eq, ast.NotEq)):
+		for n in nodes(FI(eq), ast.Compare):
+			if len(n.ops) == 1 and isinstance(n.ops[0], (ast.Eq, ast.NotEq)):
 				l, rgt = n.left, n.comparators[0]
-				if isinstance(l, ast.Attribute) and isinstance(rgt, ast.Attribute) and isinstance(l.value, ast.Name) and isinstance(rgt.value, ast.Name) and l.attr == rgt.attr and {l.value.id, rgt.value.id} == {'self', 'other'}:
+				if isinstance(l, ast.Attribute) and isinstance(rgt, ast.Attribute) and isinstance(l.value, ast.Name) and isinstance(rgt.value, ast.Name) and l.attr == rgt.attr and l.value.id != rgt.value.id and 'self' in (l.value.id, rgt.value.id):
 					covered.add(l.attr)
 				if isinstance(l, ast.Call) and isinstance(rgt, ast.Call) and unparse(l.func).endswith('.to_json') and unparse(rgt.func).endswith('.to_json'):
 					covered.add('identity')
 	if 'identity' in covered:
-		ok_ident = ident is not None and 'self.to_json()' in unparse(ident.node)
+		ok_ident = ident is not None and has_call(FI(ident), 'self.to_json')
 		ra.check(ok_ident, 'eq-covers-all-fields', (ident or mh).where, 'MetaHeader.identity is no longer derived from to_json(), so __eq__ (identity comparison) does not cover the serialised fields')
 	else:
 		missing = sorted(attrs_set - covered)
@@ -112,7 +127,7 @@ def run(rep: Report, tier: str) -> None:
 		ds = [n for n in ast.walk(f.node) if isinstance(n, ast.Dict)]
 		ds = [d for d in ds if all(const_str(k) is not None for k in d.keys) and d.keys]
 		if not ds:
-			rn.undecided(f'{rel}:{qual}', f.where, 'no dict literal returned')
+			rn.skip(f'{rel}:{qual}', f.where, 'no dict literal returned')
 			return
 		for d in ds:
 			rn.check(set(dict_keys(d)) == set(tds.get(td, {})), f'{rel}:{qual}', (rel, d.lineno), f'{qual} returns keys {sorted(dict_keys(d))}; TypedDict {td} declares {sorted(tds.get(td, {}))}')
@@ -122,38 +137,54 @@ def run(rep: Report, tier: str) -> None:
 	# the hash in ModuleMeta is the hash of the module's own source file
 	hf = pv.functions.get('module_meta_factory.<locals>.handler')
 	if hf is not None:
-		src = unparse(hf.node)
-		rn.check("'hash': sources.hash(filepath)" in src and 'module_path_to_filepath(target_module_path.path' in src, 'module-hash-source', hf.where, 'ModuleMeta.hash is no longer sources.hash(<file of the module>)')
+		hx = FI(hf)
+		param = hf.params()[0] if hf.params() else ''
+		hv = [v for d in nodes(hx, ast.Dict) for k, v in zip(d.keys, d.values) if const_str(k) == 'hash']
+		if not hv:
+			rn.skip('module-hash-source', hf.where, 'the module meta handler no longer returns a dict literal with a `hash` key')
+		for v in hv:
+			is_hash = isinstance(v, ast.Call) and unparse(v.func).endswith('.hash') and v.args
+			to_file = is_hash and has_call(v.args[0], 'module_path_to_filepath') and any(isinstance(x, ast.Name) and x.id == param for x in ast.walk(v.args[0]))
+			rn.check(bool(is_hash and to_file), 'module-hash-source', hf.where, f'ModuleMeta.hash must be sources.hash(<file of the module `{param}`>): `{unparse(v)[:160]}`', unparse(v)[:200])
 
 	# ---- (b) written vs parsed form ------------------------------------------------------------------------------------
 	rb = rep.rule('C06/header-text-roundtrip', 'to_header_str and try_from_content agree on tag and separator; the entrypoint template prints meta_header on its first line; embedded and compared headers come from the same sources', floor=6)
 	tag = mh.class_attrs.get('Tag')
 	tagv = const_str(tag) if tag is not None else None
 	rb.check(bool(tagv) and '\n' not in tagv and '}' not in tagv, 'tag', mh.where, f'MetaHeader.Tag = {tagv!r}')
-	# f'{self.Tag}: {self.to_json()}'
-	js = next((n for n in ast.walk(to_hdr.node) if isinstance(n, ast.JoinedStr)), None)
+	# Tag + sep + to_json()
+	th = FI(to_hdr)
+	ret = next((n.value for n in nodes(th, ast.Return) if n.value is not None), None)
+	parts = concat_parts(ret) if ret is not None else []
 	sep = None
-	if js is not None and len(js.values) == 3 and isinstance(js.values[1], ast.Constant) and 'Tag' in unparse(js.values[0]) and 'to_json' in unparse(js.values[2]):
-		sep = js.values[1].value
+	if len(parts) == 3 and parts[0][0] == 'expr' and parts[1][0] == 'const' and parts[2][0] == 'expr' and unparse(parts[0][1]).endswith('Tag') and has_call(parts[2][1], 'to_json'):
+		sep = parts[1][1]
+	tf = FI(try_from)
+	cparam = try_from.params()[1] if len(try_from.params()) > 1 else 'content'
+	slices = [n for n in nodes(tf, ast.Subscript) if isinstance(n.slice, ast.Slice) and unparse(n.value) == cparam and n.slice.lower is not None]
 	if sep is None:
-		rb.undecided('separator', to_hdr.where, 'to_header_str is no longer f"{Tag}<sep>{json}"')
+		rb.skip('separator', to_hdr.where, 'to_header_str is no longer Tag + <separator> + to_json()')
+	elif not slices:
+		rb.skip('skip', try_from.where, 'try_from_content no longer slices the JSON text out of the content')
 	else:
-		# json_begin = header_begin + len(Tag) + n
-		skip = None
-		for n in ast.walk(try_from.node):
-			if isinstance(n, ast.Assign) and unparse(n.targets[0]) == 'json_begin':
-				v = n.value
-				if isinstance(v, ast.BinOp) and isinstance(v.op, ast.Add) and isinstance(v.right, ast.Constant) and 'len(' in unparse(v.left) and 'Tag' in unparse(v.left):
-					skip = v.right.value
-				elif 'len(' in unparse(v) and 'Tag' in unparse(v):
-					skip = 0
-		if skip is None:
-			rb.undecided('skip', try_from.where, 'json_begin is no longer header_begin + len(Tag) + n')
+		low = slices[0].slice.lower
+		terms = [('expr', t) if k == 'expr' else ('const', t) for k, t in _sum_terms(low)]
+		consts = [t for k, t in terms if k == 'const']
+		exprs = [unparse(t) for k, t in terms if k == 'expr']
+		has_find = any('find(' in e and 'Tag' in e for e in exprs)
+		has_len = any(e.startswith('len(') and 'Tag' in e for e in exprs)
+		if not (has_find and has_len and len(exprs) == 2 and all(isinstance(c, int) for c in consts)):
+			rb.skip('skip', try_from.where, f'the JSON slice no longer starts at find(Tag) + len(Tag) + n: `{unparse(low)[:120]}`')
 		else:
+			skip = sum(consts)
 			rb.check(0 <= skip <= len(sep) and sep[skip:].strip() == '' and sep[:skip].strip() in ('', ':'), 'skip-inside-separator', try_from.where, f'try_from_content skips len(Tag)+{skip} but the writer separates tag and JSON with {sep!r}: the JSON slice would start inside the JSON or before the separator\'s non-blank part')
-		src = unparse(try_from.node)
-		rb.check('content.find(MetaHeader.Tag)' in src or 'content.find(cls.Tag)' in src, 'find-tag', try_from.where, 'try_from_content no longer searches for MetaHeader.Tag')
-		rb.check("content.find('\\n', json_begin)" in src and "content.rfind('}', json_begin, line_break)" in src, 'line-bounded', try_from.where, 'the JSON slice is no longer bounded by the end of the header line')
+			rb.ok('find-tag', try_from.where)
+		up = slices[0].slice.upper
+		if up is not None and any(c.args and const_str(c.args[0]) == '\n' for c in calls(up, ('find', 'index'))):
+			closing = [c for c in calls(up, ('rfind', 'rindex')) if c.args and const_str(c.args[0]) == '}']
+			rb.check(bool(closing) and sum(t for k, t in _sum_terms(up) if k == 'const' and isinstance(t, int)) == 1, 'line-bounded', try_from.where, f'the JSON slice must end just after the last `}}` before the end of the header line: `{unparse(up)[:160]}`')
+		else:
+			rb.skip('line-bounded', try_from.where, 'the JSON slice is no longer bounded by the first line break after the tag')
 	tm = TemplateModel()
 	ep = 'block/entrypoint'
 	rep.consulted(tm.relpath(ep))
@@ -178,35 +209,98 @@ def run(rep: Report, tier: str) -> None:
 	# embedded header vs compared header: same constructor arguments (module meta factory of the module path, transpiler meta)
 	py = idx.mod(PY2CPP)
 	oe = py.func('Py2Cpp.on_entrypoint')
-	emb = [n for n in ast.walk(oe.node) if isinstance(n, ast.Call) and attr_chain(n.func) == 'MetaHeader']
+	oex = FI(oe)
+	emb = [c for c in nodes(oex, ast.Call) if attr_chain(c.func) == 'MetaHeader']
 	ct = tr.func('Runner.can_transpile')
-	cmp_ = [n for n in ast.walk(ct.node) if isinstance(n, ast.Call) and attr_chain(n.func) == 'MetaHeader']
-	ok = len(emb) == 1 and len(cmp_) == 1 and len(emb[0].args) == 2 and len(cmp_[0].args) == 2
-	if ok:
-		a0, a1 = unparse(emb[0].args[0]), unparse(emb[0].args[1])
-		b0, b1 = unparse(cmp_[0].args[0]), unparse(cmp_[0].args[1])
-		ok = a0 == 'self.module_meta_factory(node.module_path)' and b0 == 'self.module_meta_factory(module_path.path)' and a1 == 'self.meta' and b1 == 'self.transpiler.meta'
-	rb.check(ok, 'same-sources', oe.where, 'the header embedded by on_entrypoint and the header Runner.can_transpile compares against are no longer built from (module_meta_factory(module path), transpiler meta)')
-	rb.check("'meta_header': meta_header.to_header_str()" in unparse(oe.node), 'embedded-form', oe.where, 'on_entrypoint no longer passes meta_header.to_header_str() to the template')
-	rb.check('new_meta != old_meta' in unparse(ct.node) and 'if not old_meta' in unparse(ct.node), 'compare', ct.where, 'can_transpile no longer regenerates when the old header is missing or differs')
+	ctx = FI(ct)
+	cmp_ = [c for c in nodes(ctx, ast.Call) if attr_chain(c.func) == 'MetaHeader']
+	if not emb or not cmp_:
+		rb.skip('same-sources', oe.where, 'on_entrypoint / can_transpile no longer construct MetaHeader(...) directly')
+	else:
+		def shape(c: ast.Call) -> tuple:
+			a = list(c.args) + [kw.value for kw in c.keywords]
+			first = a[0] if a else None
+			return (len(a), isinstance(first, ast.Call) and unparse(first.func).endswith('module_meta_factory'), unparse(a[1]).endswith('meta') if len(a) > 1 else False)
+		mpath_e = unparse(emb[0].args[0].args[0]) if emb[0].args and isinstance(emb[0].args[0], ast.Call) and emb[0].args[0].args else ''
+		mpath_c = unparse(cmp_[0].args[0].args[0]) if cmp_[0].args and isinstance(cmp_[0].args[0], ast.Call) and cmp_[0].args[0].args else ''
+		ok = shape(emb[0]) == shape(cmp_[0]) == (2, True, True) and mpath_e.endswith('.module_path') and mpath_c.endswith('.path') and unparse(emb[0].args[1]) == 'self.meta' and unparse(cmp_[0].args[1]).endswith('transpiler.meta')
+		rb.check(ok, 'same-sources', oe.where, f'the header embedded by on_entrypoint `{unparse(emb[0])}` and the header Runner.can_transpile compares against `{unparse(cmp_[0])}` must both be built from (module_meta_factory(module path), transpiler meta)')
+	mhv = [v for d in nodes(oex, ast.Dict) for k, v in zip(d.keys, d.values) if const_str(k) == 'meta_header']
+	if not mhv:
+		rb.skip('embedded-form', oe.where, 'on_entrypoint no longer passes a `meta_header` template variable in a dict literal')
+	for v in mhv:
+		rb.check(isinstance(v, ast.Call) and unparse(v.func).endswith('.to_header_str') and attr_chain(v.func.value.func if isinstance(v.func.value, ast.Call) else v.func.value) == 'MetaHeader', 'embedded-form', oe.where, f'on_entrypoint must pass MetaHeader(...).to_header_str() to the template: `{unparse(v)[:120]}`')
+	# regenerate when the old header is missing or differs
+	neq = [n for n in nodes(ctx, ast.Compare) if len(n.ops) == 1 and isinstance(n.ops[0], (ast.NotEq, ast.Eq)) and {has_call(n.left, 'try_load_meta_header'), has_call(n.comparators[0], 'try_load_meta_header')} == {True, False} and (attr_chain(n.left.func if isinstance(n.left, ast.Call) else n.left) == 'MetaHeader' or attr_chain(n.comparators[0].func if isinstance(n.comparators[0], ast.Call) else n.comparators[0]) == 'MetaHeader')]
+	if not neq:
+		rb.skip('compare', ct.where, 'can_transpile no longer compares MetaHeader(...) with the loaded header')
+	else:
+		pm_ = parent_map(ctx)
+		c0 = neq[0]
+		par = pm_.get(id(c0))
+		negated = isinstance(par, ast.UnaryOp) and isinstance(par.op, ast.Not)
+		differs = isinstance(c0.ops[0], ast.NotEq) != negated
+		returned = isinstance(pm_.get(id(par if negated else c0)), ast.Return)
+		if returned:
+			rb.check(differs, 'compare', ct.where, f'can_transpile must answer True when the regenerated header differs from the old one: returns `{unparse(par if negated else c0)[:120]}`')
+		else:
+			rb.skip('compare', ct.where, 'the header comparison is no longer returned directly')
 
 	# ---- (c) read path == write path -----------------------------------------------------------------------------------------
 	rule_paths(rep, idx)
 	rc = rep.rule('C06/read-path-is-write-path', 'the old header is read from the path the output is written to; non-forced runs filter with can_transpile, forced runs take every module', floor=4)
 	tl = tr.func('Runner.try_load_meta_header')
 	ri = tr.func('Runner._run_impl')
-	read_path = [unparse(n.value) for n in ast.walk(tl.node) if isinstance(n, ast.Assign) and unparse(n.targets[0]) == 'filepath']
-	write_path = [unparse(n.args[0]) for n in ast.walk(ri.node) if isinstance(n, ast.Call) and attr_chain(n.func) == 'Writer' and n.args]
-	rc.check(read_path == ['self.output_filepath(module_path)'] and write_path == ['self.output_filepath(module_path)'], 'same-path', tl.where, f'header is read from {read_path} but the output is written to {write_path}')
-	rc.check('self.sources.exists(filepath)' in unparse(tl.node) and 'MetaHeader.try_from_content(self.sources.load(filepath))' in unparse(tl.node), 'read-existing', tl.where, 'try_load_meta_header no longer parses the existing output file')
-	sel = next((n for n in ast.walk(ri.node) if isinstance(n, ast.IfExp) and 'force' in unparse(n.test)), None)
-	if sel is None:
-		rc.undecided('target-selection', ri.where, 'target selection is no longer `all if force else filtered`')
+	tlx = FI(tl)
+	reads = [c.args[0] for c in calls(tlx, ('sources.load', 'sources.exists')) if c.args]
+	writes = [c.args[0] for fn in closure_fi(ri) for c in nodes(fn, ast.Call) if attr_chain(c.func) == 'Writer' and c.args]
+	if not reads or not writes:
+		rc.skip('same-path', tl.where, 'no sources.load(...) in try_load_meta_header or no Writer(...) in _run_impl')
 	else:
-		rc.check(unparse(sel.test) == 'self.config.force' and unparse(sel.body) == 'self.module_paths', 'forced-all', ri.where, f'forced branch takes `{unparse(sel.body)}` when `{unparse(sel.test)}`')
-		rc.check(isinstance(sel.orelse, ast.ListComp) and 'self.can_transpile(module_path)' in unparse(sel.orelse) and 'for module_path in self.module_paths' in unparse(sel.orelse), 'non-forced-filter', ri.where, f'non-forced branch is `{unparse(sel.orelse)}`')
-	loop = next((n for n in ast.walk(ri.node) if isinstance(n, ast.For)), None)
-	rc.check(loop is not None and 'self.transpiler.transpile(self.by_entrypoint(module_path))' in unparse(loop) and 'writer.put(content)' in unparse(loop) and 'writer.flush()' in unparse(loop), 'write-each-target', ri.where, 'each selected module is no longer transpiled and written')
+		is_out = lambda e: isinstance(e, ast.Call) and unparse(e.func) == 'self.output_filepath' and len(e.args) == 1 and isinstance(e.args[0], ast.Name)
+		rc.check(all(is_out(e) for e in reads) and all(is_out(e) for e in writes), 'same-path', tl.where, f'header is read from {[unparse(e) for e in reads]} but the output is written to {[unparse(e) for e in writes]}: both must be self.output_filepath(<module path>)')
+	parsed = [c for c in calls(tlx, 'MetaHeader.try_from_content') if c.args and has_call(c.args[0], 'sources.load')]
+	if parsed:
+		rc.ok('read-existing', tl.where)
+	else:
+		rc.skip('read-existing', tl.where, 'try_load_meta_header no longer parses sources.load(<output file>) with MetaHeader.try_from_content')
+	filt = []
+	for fn in closure(ri):
+		for n in nodes(fn, (ast.ListComp, ast.GeneratorExp, ast.If, ast.Call)):
+			if isinstance(n, (ast.ListComp, ast.GeneratorExp)) and any(has_call(i, 'can_transpile') for g in n.generators for i in g.ifs):
+				filt.append((fn, n))
+			elif isinstance(n, ast.If) and has_call(n.test, 'can_transpile'):
+				filt.append((fn, n))
+			elif isinstance(n, ast.Call) and unparse(n.func) == 'filter' and n.args and 'can_transpile' in unparse(n.args[0]):
+				filt.append((fn, n))
+	if not filt:
+		rc.skip('non-forced-filter', ri.where, '_run_impl (and helpers) no longer filter the module paths with can_transpile')
+	for fn, n in filt:
+		fs = facts_through(ri, fn, n)
+		force = [(t, p) for t, p in fs if t.endswith('config.force')]
+		if isinstance(n, ast.If) and not force:
+			force = [(t, p) for t, p in ((unparse(a), q) for a, q in _test_atoms(n.test)) if t.endswith('config.force')]
+		rc.check(bool(force) and all(p is False for _, p in force), 'non-forced-filter', ri.where, f'the can_transpile filter must apply exactly when config.force is false (conditions at the filter: {fs})', unparse(n)[:160])
+	loops = [n for fn in closure(ri) for n in nodes(fn, ast.For) if has_call(n, 'transpile') and not has_call(n.iter, 'transpile')]
+	if not loops:
+		rc.skip('write-each-target', ri.where, '_run_impl no longer loops over the selected modules')
+	for lp in loops:
+		rc.check(has_call(lp, 'transpiler.transpile') and any(attr_chain(c.func) == 'Writer' for c in nodes(lp, ast.Call)) and has_call(lp, 'put') and has_call(lp, 'flush'), 'write-each-target', ri.where, 'each selected module must be transpiled and written (Writer(...).put(content) + flush())')
+
+
+def _sum_terms(e: ast.AST) -> list[tuple[str, object]]:
+	"""terms of a `+` chain: ('const', int) | ('expr', node)"""
+	if isinstance(e, ast.BinOp) and isinstance(e.op, ast.Add):
+		return _sum_terms(e.left) + _sum_terms(e.right)
+	if isinstance(e, ast.Constant) and isinstance(e.value, int):
+		return [('const', e.value)]
+	return [('expr', e)]
+
+
+def _test_atoms(test: ast.AST) -> list[tuple[ast.AST, bool]]:
+	"""atoms that must hold for the test to be true"""
+	from vlib.match import conjuncts
+	return conjuncts(test, True)
 
 
 # ---- (d) output path mapping: each rule maps distinct module files to distinct outputs ---------------------------------------------
@@ -215,34 +309,34 @@ def rule_paths(rep: Report, idx: SourceIndex) -> None:
 	r = rep.rule('C06/output-path-injective-per-rule', 'every branch of Runner.fetch_output_path joins the output directory with the file path itself or with the path minus its *leading* matched prefix (an injective transformation), so distinct modules matched by one rule never share an output file', floor=3)
 	m = idx.mod(TRANSPILE)
 	f = m.func('Runner.fetch_output_path')
-	from vlib.flow import parent_map
-	pm = parent_map(f.node)
-	rets = [n for n in ast.walk(f.node) if isinstance(n, ast.Return)]
+	from vlib.match import X, facts
+	fx = X(f)
+	param = f.params()[1] if len(f.params()) > 1 else 'filepath'
+	# names that denote the file path itself: the parameter and single-assignment locals derived from it by a separator replacement
+	same = {param}
+	for n in ast.walk(f.node):
+		if isinstance(n, ast.Assign) and isinstance(n.targets[0], ast.Name) and isinstance(n.value, ast.Call) and unparse(n.value.func) == f'{param}.replace' and 'os.sep' in unparse(n.value):
+			same.add(n.targets[0].id)
+	rets = [n for n in ast.walk(fx) if isinstance(n, ast.Return)]
 	if len(rets) < 3:
-		r.undecided('returns', f.where, f'fetch_output_path has {len(rets)} returns; expected glob rule, prefix rule, fallback')
+		r.skip('returns', f.where, f'fetch_output_path has {len(rets)} returns; expected glob rule, prefix rule, fallback')
 	for ret in rets:
 		v = ret.value
 		key = f'fetch_output_path:{unparse(v)[:70]}'
 		if not (isinstance(v, ast.Call) and attr_chain(v.func) == 'os.path.join' and len(v.args) == 2):
-			r.undecided(key, (TRANSPILE, ret.lineno), 'return is not os.path.join(<dir>, <path>)')
+			r.skip(key, (TRANSPILE, ret.lineno), 'return is not os.path.join(<dir>, <path>)')
 			continue
 		p = v.args[1]
 		src = unparse(p)
-		test = None
-		cur = ret
-		while id(cur) in pm:
-			par = pm[id(cur)]
-			if isinstance(par, ast.If) and any(cur is s_ for s_ in par.body):
-				test = unparse(par.test)
-				break
-			cur = par
-		if src in ('filepath', '_filepath'):
+		known = facts(fx, ret)
+		if src in same:
 			r.ok(key, (TRANSPILE, ret.lineno))
-		elif isinstance(p, ast.Subscript) and isinstance(p.slice, ast.Slice) and p.slice.upper is None and p.slice.lower is not None and unparse(p.value) in ('filepath', '_filepath') and unparse(p.slice.lower) == 'len(condition)':
-			r.check(test is not None and '_filepath.startswith(condition)' in test, key, (TRANSPILE, ret.lineno), f'the leading len(condition) characters are cut although the branch does not establish that the path starts with `condition` (test: {test})')
+		elif isinstance(p, ast.Subscript) and isinstance(p.slice, ast.Slice) and p.slice.upper is None and p.slice.lower is not None and unparse(p.value) in same and isinstance(p.slice.lower, ast.Call) and unparse(p.slice.lower.func) == 'len' and len(p.slice.lower.args) == 1:
+			cut = unparse(p.slice.lower.args[0])
+			r.check(any(pol and any(t == f'{nm}.startswith({cut})' for nm in same) for t, pol in known), key, (TRANSPILE, ret.lineno), f'the leading len({cut}) characters are cut although the branch does not establish that the path starts with `{cut}` (conditions: {known})')
 		elif isinstance(p, ast.Call) and isinstance(p.func, ast.Attribute) and p.func.attr == 'removeprefix':
 			r.ok(key, (TRANSPILE, ret.lineno))
 		elif isinstance(p, ast.Call) and isinstance(p.func, ast.Attribute) and p.func.attr in ('replace', 'strip', 'lstrip', 'rstrip', 'split'):
 			r.violate(key, (TRANSPILE, ret.lineno), f'`{src}` is not injective on file paths ({p.func.attr} affects every occurrence / a character set, not just the matched leading prefix): two modules such as src/lib/util.py and src/lib/src/util.py map to one output file, and forced vs non-forced runs then diverge', src)
 		else:
-			r.undecided(key, (TRANSPILE, ret.lineno), f'cannot classify the path transformation `{src}`')
+			r.skip(key, (TRANSPILE, ret.lineno), f'cannot classify the path transformation `{src}`')
